@@ -100,6 +100,11 @@ def run(tier):
         th_tab, box_tab = _threaded(_tables, parts, wd, 9 if quick else 10, 7)
         th_mc1, box_mc1 = _threaded(_mc, parts, 'rle_mc', 'Z80RleEnc', 'Z80Rle_mc.cfg', False)
         th_mc2, box_mc2 = _threaded(_mc, parts, 'ops_mc', 'SnapOpsMC', 'SnapOps_mc.cfg', True)
+        # vacuity guard: the encoder without the "two or more EDs always go into a block" rule must fail the round trip
+        rneg = tlc.model_check('codec', 'Z80RleEnc', 'Z80Rle_neg.cfg', timeout=600, coverage=False, workers=4)
+        rep.add_tlc(rneg, 'Z80Rle_neg(expected violation)')
+        if 'RoundTrip' not in rneg.violated:
+            raise MachineryError('Z80Rle_neg: an encoder without the ED rule no longer violates RoundTrip (vacuous invariant?)')
         # ---- drive the real code -----------------------------------------------------------------------
         rng = random.Random(sd)
         ljobs = snapdrv.long_jobs(wd, rng, 16 if quick else 400)
